@@ -1,56 +1,101 @@
 import BeyondVerif.Model.Iter
 /-!
-Kernel-checked counter-witnesses (`decide`) for the clauses of C08 that the current code falsifies.  They are statements
-about `Model/Iter.lean`; the correspondence run shows the code behaves the same, and the oracle in `harness/props/C08.py`
-replays each of them on the real API (family given in brackets; all are listed in `known_findings.d/C08.json`).
+Kernel-checked regression witnesses (`decide`) for the clauses of C08 that the code falsified before the `fix:` commits named
+in brackets (known_findings.d/C08.json, status `fixed`), and one counter-witness for the clause it still falsifies (status `open`). Each is the formerly failing input of the corresponding finding, evaluated
+on `Model/Iter.lean` as it follows the code NOW: the model yields the stream the property requires. The correspondence run shows the
+code behaves the same, and the oracle in `harness/props/C08.py` replays the same inputs on the real API (family in brackets):
+a failure there is reported as a VIOLATION again.
 Units: seconds written as integers (the model is unit-free); `h = 60` is the integration step, order 8.
 -/
 namespace BeyondVerif.C08W
 open BeyondVerif.Iter
 
-/-- [num-iter-fwd-beyond-stop] stop 90 s after the epoch, integration step 60 s, no `step`: the date 120 s, beyond stop, is yielded -/
-theorem numerical_beyond_stop : numIter 20 8 0 60 { stop := some (.at 90) } = (true, ⟨[0, 60, 120], .done⟩) := by decide
+/-- [num-iter-fwd-beyond-stop, 1267f6c] stop 90 s after the epoch, integration step 60 s, no `step`: 0, 60 — the date 120 s,
+beyond stop, is no longer yielded -/
+theorem numerical_nothing_beyond_stop : numIter 20 8 0 60 { stop := some (.at 90) } false = (true, ⟨[0, 60], .done⟩) := by decide
 
-/-- [num-iter-fwd-beyond-stop] the same with an explicit step: stop 450, step 30 → 480 is yielded -/
-theorem numerical_beyond_stop_step :
-    (numIter 40 8 0 60 { stop := some (.at 450), step := some (some 30) }).2.dates.getLast? = some 480 := by decide
+/-- [num-iter-fwd-beyond-stop, 1267f6c] the same with an explicit step: stop 450, step 30 → the last date is 450 (was 480) -/
+theorem numerical_nothing_beyond_stop_step :
+    (numIter 40 8 0 60 { stop := some (.at 450), step := some (some 30) } false).2.dates.getLast? = some 450 := by decide
 
-/-- [num-iter-fwd-step-short-raises-value-error] a span of 200 s (4 integration points < order 8) with an explicit step raises ValueError -/
-theorem numerical_short_span_raises : numIter 20 8 0 60 { stop := some (.at 200), step := some (some 30) } = (true, Run.fail .value) := by decide
+/-- [num-iter-fwd-step-short-raises-value-error, d22f06a] a span of 200 s (4 integration points < order 8) with an explicit step
+is resampled (was ValueError) -/
+theorem numerical_short_span_resampled :
+    numIter 20 8 0 60 { stop := some (.at 200), step := some (some 30) } false = (true, ⟨[0, 30, 60, 90, 120, 150, 180], .done⟩) := by decide
 
-/-- [num-iter-bwd-raises-value-error] every backward range raises ValueError (one tabulated point, interpolation impossible) -/
-theorem numerical_backward_raises : numIter 20 8 0 60 { stop := some (.delta (-600)), step := some (some 60) } = (true, Run.fail .value) := by decide
-theorem numerical_backward_raises_nostep : numIter 20 8 0 60 { stop := some (.delta (-600)) } = (true, Run.fail .value) := by decide
+/-- [num-iter-fwd-step-short-raises-value-error, d22f06a] … and with a listener and no step the integration grid is padded but
+only the dates up to stop are yielded -/
+theorem numerical_short_span_listening : numIter 20 8 0 60 { stop := some (.at 200) } true = (true, ⟨[0, 60, 120, 180], .done⟩) := by decide
 
-/-- [num-iter-dates-list-raises-attribute-error] an explicit list of dates is not accepted by the numerical propagator -/
-theorem numerical_dates_list_raises : numIter 20 8 0 60 { dates := some (.list [0, 60]) } = (false, Run.fail .attr) := by decide
+/-- [num-iter-bwd-raises-value-error, d22f06a] backward ranges are iterated (were ValueError): step given positive, … -/
+theorem numerical_backward : numIter 20 8 0 60 { stop := some (.delta (-600)), step := some (some 60) } false
+    = (true, ⟨[0, -60, -120, -180, -240, -300, -360, -420, -480, -540, -600], .done⟩) := by decide
+/-- … no step (stop off the integration grid: nothing beyond it), … -/
+theorem numerical_backward_nostep : numIter 20 8 0 60 { stop := some (.delta (-200)) } false = (true, ⟨[0, -60, -120, -180], .done⟩) := by decide
+/-- … negative step not dividing the span, start after the epoch -/
+theorem numerical_backward_negstep :
+    numIter 20 8 0 60 { start := some (some 100), stop := some (.at (-100)), step := some (some (-45)) } false
+      = (true, ⟨[100, 55, 10, -35, -80], .done⟩) := by decide
+
+/-- [num-iter-dates-list-raises-attribute-error, c9fd5d8] an explicit list of dates is accepted by the numerical propagator
+(was AttributeError) and yielded as given; the empty list yields nothing -/
+theorem numerical_dates_list : numIter 20 8 0 60 { dates := some (.list [0, 60]) } false = (true, ⟨[0, 60], .done⟩) := by decide
+theorem numerical_dates_list_unordered : numIter 20 8 0 60 { dates := some (.list [200, -45, 200, 7]) } false
+    = (true, ⟨[200, -45, 200, 7], .done⟩) := by decide
+theorem numerical_dates_list_empty : numIter 20 8 0 60 { dates := some (.list []) } false = (false, ⟨[], .done⟩) := by decide
 
 def pts : List Int := [0, 60, 120, 180, 240, 300, 360, 420, 480, 540, 600]
 
-/-- [ephem-iter-bwd-yields-nothing] a backward range over an ephemeris yields nothing, silently -/
-theorem ephem_backward_yields_nothing : ephemIter 20 8 pts none (some 400) (some (.at 30)) (some (-90)) true = ⟨[], .done⟩ := by decide
+/-- [ephem-iter-bwd-yields-nothing, 0823162] a backward range over an ephemeris yields `start − k·|step|` (was: nothing) -/
+theorem ephem_backward : ephemIter 20 8 pts none (some 400) (some (.at 30)) (some (-90)) true = ⟨[400, 310, 220, 130, 40], .done⟩ := by decide
+theorem ephem_backward_posstep : ephemIter 20 8 pts none (some 400) (some (.at 30)) (some 90) true = ⟨[400, 310, 220, 130, 40], .done⟩ := by decide
 
-/-- [ephem-iter-dates-list-empty-extra-dates] `dates=[]` yields the whole ephemeris instead of nothing -/
-theorem ephem_empty_list_yields_all : ephemIter 20 8 pts (some (.list [])) none none none true = ⟨pts, .done⟩ := by decide
+/-- [ephem-iter-dates-list-empty-extra-dates, f7bd57e] `dates=[]` yields nothing (was: the whole ephemeris) -/
+theorem ephem_empty_list_yields_nothing : ephemIter 20 8 pts (some (.list [])) none none none true = ⟨[], .done⟩ := by decide
 
-/-- [analytical-iter-dates-list-empty-raises-value-error] `dates=[]` raises ValueError ("Null step") on analytical propagators -/
-theorem analytical_empty_list_raises : analyticalIter 20 0 none { dates := some (.list []) } = (true, Run.fail .value) := by decide
+/-- [analytical-iter-dates-list-empty-raises-value-error, 9fe3fcf] `dates=[]` yields nothing on analytical propagators
+(was ValueError "Null step") -/
+theorem analytical_empty_list_yields_nothing : analyticalIter 20 0 none { dates := some (.list []) } = (true, ⟨[], .done⟩) := by decide
 
-/-- [sgp4-history-dependent-propagate-state-after-inplace-change] Sgp4 keeps the satellite record computed when the orbit was
-bound: after the user modifies the orbit in place, `propagate` still returns the trajectory of the old elements
-(`(0, 0)` = orbit 0 before its modification) whereas fresh objects follow the new ones (`(0, 1)`) -/
-theorem sgp4_stale_after_modify :
-    let w : World (Nat × Nat) := { kind := .sgp4, store := Prod.mk, epoch := fun _ => 0 }
-    let s := runHist (R := Nat × Nat) w (fun v _ => v) (fun _ _ _ => false) 10 {} [.propagate 0 5, .modify 0]
-    (exec w (fun v _ => v) (fun _ _ _ => false) 10 s (.propagate 0 7)).2.states = [(0, 0)] ∧
-    (exec w (fun v _ => v) (fun _ _ _ => false) 10 ({ ver := s.ver } : St (Nat × Nat)) (.propagate 0 7)).2.states = [(0, 1)] := by
+/-- orbit values of the witnesses below: (object, (number of changes of its elements, number of changes of its drag term));
+`Sgp4._state` sees the object's coordinates, not its drag term -/
+def world (k : Kind) : World (Nat × Nat × Nat) :=
+  { kind := k, store := Prod.mk, sameState := fun a b => a.1 == b.1 && a.2.1 == b.2.1, epoch := fun _ => 0 }
+
+/-- [sgp4-history-dependent-state-after-inplace-change, c604b3e] Sgp4 re-derives its satellite record when the bound orbit was
+modified in place: after `propagate; modify`, `propagate` and `iter` return the trajectory of the NEW elements (`(0, 1, 0)` = orbit 0
+after its modification; was `(0, 0, 0)`), as fresh objects do -/
+theorem sgp4_follows_modify :
+    let w := world .sgp4
+    let s := runHist (R := Nat × Nat × Nat) w (fun v _ => v) (fun _ _ _ => false) 10 {} [.propagate 0 5, .modify 0]
+    (exec w (fun v _ => v) (fun _ _ _ => false) 10 s (.propagate 0 7)).2.states = [(0, 1, 0)] ∧
+    (exec w (fun v _ => v) (fun _ _ _ => false) 10 s (.iter 0 { stop := some (.at 20), step := some (some 10) } [] 5)).2.states
+      = [(0, 1, 0), (0, 1, 0), (0, 1, 0)] ∧
+    (exec w (fun v _ => v) (fun _ _ _ => false) 10 ({ ver := s.ver } : St (Nat × Nat × Nat)) (.propagate 0 7)).2.states = [(0, 1, 0)] := by
   decide
 
-/-- the same history under the copying setters and under NonePropagator follows the modification -/
+/-- COUNTER-witness [sgp4-history-dependent-state-after-inplace-drag-term-change, OPEN finding C08-sgp4-stale-after-drag-term-change]:
+after `propagate; orb.bstar = x`, Sgp4 still returns the trajectory of the OLD drag term (`(0, 0, 0)`) whereas fresh objects follow
+the new one (`(0, 0, 1)`): `Sgp4._state` does not see the change. The hypothesis `Faithful` of `propagate_pure_partial` is needed. -/
+theorem sgp4_stale_after_drag_change :
+    let w := world .sgp4
+    let s := runHist (R := Nat × Nat × Nat) w (fun v _ => v) (fun _ _ _ => false) 10 {} [.propagate 0 5, .modifyMeta 0]
+    (exec w (fun v _ => v) (fun _ _ _ => false) 10 s (.propagate 0 7)).2.states = [(0, 0, 0)] ∧
+    (exec w (fun v _ => v) (fun _ _ _ => false) 10 ({ ver := s.ver } : St (Nat × Nat × Nat)) (.propagate 0 7)).2.states = [(0, 0, 1)] := by
+  decide
+
+/-- … a later change of the elements makes Sgp4 rebuild the record, with the current drag term -/
+theorem sgp4_drag_change_seen_after_element_change :
+    let w := world .sgp4
+    let s := runHist (R := Nat × Nat × Nat) w (fun v _ => v) (fun _ _ _ => false) 10 {} [.propagate 0 5, .modifyMeta 0, .modify 0]
+    (exec w (fun v _ => v) (fun _ _ _ => false) 10 s (.propagate 0 7)).2.states = [(0, 1, 1)] := by
+  decide
+
+/-- the same histories under the copying setters and under NonePropagator follow every modification -/
 theorem kepler_follows_modify :
-    let w : World (Nat × Nat) := { kind := .kepler, store := Prod.mk, epoch := fun _ => 0 }
-    let s := runHist (R := Nat × Nat) w (fun v _ => v) (fun _ _ _ => false) 10 {} [.propagate 0 5, .modify 0]
-    (exec w (fun v _ => v) (fun _ _ _ => false) 10 s (.propagate 0 7)).2.states = [(0, 1)] := by
+    let w := world .kepler
+    let s := runHist (R := Nat × Nat × Nat) w (fun v _ => v) (fun _ _ _ => false) 10 {} [.propagate 0 5, .modify 0, .modifyMeta 0]
+    (exec w (fun v _ => v) (fun _ _ _ => false) 10 s (.propagate 0 7)).2.states = [(0, 1, 1)] := by
   decide
 
 end BeyondVerif.C08W
